@@ -98,6 +98,15 @@ def guarded(fn, *args):
         return "rejected", type(e).__name__
 
 
+def reset_migen_tracer():
+    """migen.fhdl.tracer keeps every object ever seen as `self` on a Signal's creation stack in a global list that it
+    searches linearly: with one fresh handler per history that is quadratic (measured 1.5 ms per call after 7000
+    histories) and keeps all handlers alive.  The list only feeds the default *names* of signals."""
+    from migen.fhdl import tracer
+    tracer.classname_to_objs.clear()
+    tracer.name_to_idx.clear()
+
+
 def digest(key, canon):
     return hashlib.blake2b(repr((key, canon)).encode(), digest_size=8).digest()
 
